@@ -379,6 +379,14 @@ pub trait RdataIterable {
         Self: DNSIterable + TypedIterable,
     {
         BigEndian::write_u32(&mut self.rdata_slice_mut()[DNS_RR_TTL_OFFSET..], ttl);
+        if self.rr_type() == Type::OPT.into() {
+            // The TTL of the OPT pseudo-record holds the extended rcode, the
+            // EDNS version and the extended flags.
+            let parsed_packet = self.parsed_packet_mut();
+            parsed_packet.ext_rcode = Some((ttl >> 24) as u8);
+            parsed_packet.edns_version = Some((ttl >> 16) as u8);
+            parsed_packet.ext_flags = Some(ttl as u16);
+        }
     }
 
     /// Returns the record length for the current RR.
